@@ -215,6 +215,18 @@ CHECKS = {
         note="Hash size 16 in decoy cases; trusted inodes only on the first two disks; using a valid import offer is not required "
              "(a stripe with another unrecoverable block is given up as a whole).",
         design="DESIGN.md section 4, C19"),
+    "C08": dict(
+        category="fault_enumeration",
+        technique="fault injection over generated cases (LD_PRELOAD shim fails the n-th pread/pwrite of a generated data file or parity level with EIO/ENOSPC); stripe hit located from the syscall trace; independent content parse + C06 oracle",
+        engine="hypothesis-cli",
+        text="For generated arrays, pending sets, io cache depths (1, 3..128, default) and error limits, 1..3 I/O faults are injected "
+             "into sync (data reads, parity writes) and scrub (data reads, parity reads). The command must exit non-zero with a "
+             "diagnostic; the stripe of every fired fault that the command looked at must not be recorded as synced and healthy "
+             "(pending block or bad mark; status shows it); every other stripe must be processed (C06 oracle) unless the run stopped "
+             "at the error limit; fix -e + scrub -p bad, or the next sync, must leave no bad/unsynced stripe.",
+        note="Non-split parity; faults that fired only in read-ahead beyond the stripe where the command stopped are not counted; "
+             "quick samples faults, thorough uses the same generator with 12x the cases (not a full enumeration of every call).",
+        design="DESIGN.md section 4, C08"),
 }
 
 NOT_YET = "check not built yet at this commit (planned in DESIGN.md section 4); not claimed until it runs"
